@@ -386,7 +386,7 @@ def generate(ctx):
 
 
 def run(ctx, status):
-    driver_ok = lean_phase(ctx, status, ["OrixProofs.Properties.C04"])
+    driver_ok = lean_phase(ctx, status, ["OrixProofs.Properties.C04", "OrixProofs.Properties.C05"])  # C05: difference_* theorems
     if ctx.replay:
         site, case, body = sites.load_replay(ctx.replay)
         if site in SITES:
